@@ -1,6 +1,6 @@
 """C15 — get_tree_diff reports exactly the differences between two trees."""
 from __future__ import annotations
-import itertools, math, random
+import itertools, zlib, math, random
 import core
 from core import hx
 from runner import Case
@@ -273,10 +273,34 @@ def gen(rng: random.Random, tier: str):
 
 
 # ---------------------------------------------------------------- real trees
-def build(spec, sep):
+_PROP = {}
+
+
+def _prop_class(keys):
+    """a Node subclass in which the attributes `keys` live in private fields behind read-only properties"""
+    if keys not in _PROP:
+        from bigtree import Node
+        ns = {k: property(lambda self, _k=k: self.__dict__.get("_p_" + _k)) for k in keys}
+
+        def __init__(self, name, **kw):
+            Node.__init__(self, name, **{("_p_" + k if k in keys else k): v for k, v in kw.items()})
+        ns["__init__"] = __init__
+        _PROP[keys] = type("PropNode", (Node,), ns)
+    return _PROP[keys]
+
+
+def attrs_of(n):
+    """public attributes of an input node, property-backed ones included"""
+    out = {k: v for k, v in n.describe(exclude_attributes=["name"], exclude_prefix="_")}
+    out.update({k[3:]: v for k, v in vars(n).items() if k.startswith("_p_")})
+    return out
+
+
+def build(spec, sep, cls=None):
     from bigtree import Node
+    cls = cls or Node
     def go(s, parent):
-        n = Node(s[0], sep=sep, **s[1]) if parent is None else Node(s[0], parent=parent, **s[1])
+        n = cls(s[0], sep=sep, **s[1]) if parent is None else cls(s[0], parent=parent, **s[1])
         for k in s[2]:
             go(k, n)
         return n
@@ -332,6 +356,7 @@ def comps(n):
 
 
 _CACHE = {}
+_ALIASED = []
 
 
 def _pre_specs(spec):
@@ -358,6 +383,11 @@ def run(d):
         try:
             get_tree_diff(a, b, only_diff=d["only_diff"],
                           attr_list=list(d["attr_list"]) if prev.get("same_attr_list", True) else ["age"])
+            # once more with a list object the caller keeps: whatever the call does to it must not matter later
+            _kept = list(d["attr_list"]) + ["zz_absent"]
+            get_tree_diff(a, b, only_diff=d["only_diff"], attr_list=_kept)
+            if _kept != list(d["attr_list"]) + ["zz_absent"]:
+                _ALIASED.append(list(_kept))
         except Exception:
             pass
         for tree, spec in ((a, d["t1"]), (b, d["t2"])):
@@ -372,12 +402,23 @@ def run(d):
                 tree.children = []
                 tree.children = kids
     else:
-        a = build(d["t1"], d["sep"])
-        b = build(d["t2"], d["sep"])
+        k = zlib.crc32(repr((d["t1"], d["t2"], d["sep"], d["attr_list"])).encode())
+        # (function of the case, no random stream) the second tree may come with ANOTHER separator of its own - the
+        # function works in the first tree's separator; names never contain that one, they may contain the other
+        sep2 = d["sep"] if k % 3 else [x for x in (".", "|", "\\", "/", "b") if x != d["sep"]][(k // 3) % 4]
+        # ... and the listed attributes may be supplied by properties of a user subclass (get_attr = getattr)
+        cls = _prop_class(tuple(sorted(d["attr_list"]))) if d["attr_list"] and (k // 16) % 3 == 0 else None
+        a = build(d["t1"], d["sep"], cls)
+        b = build(d["t2"], sep2, cls)
     if len(_CACHE) > 50000:
         _CACHE.clear()
+    al = list(d["attr_list"])
     try:
-        out = (a, b, get_tree_diff(a, b, only_diff=d["only_diff"], attr_list=list(d["attr_list"])))
+        if _ALIASED:
+            raise RuntimeError(f"the caller's attr_list was modified in place by an earlier call: {_ALIASED.pop()}")
+        out = (a, b, get_tree_diff(a, b, only_diff=d["only_diff"], attr_list=al))
+        if al != list(d["attr_list"]):
+            raise RuntimeError(f"the caller's attr_list was modified in place: {al}")
     except Exception as e:
         _CACHE[key] = (d, e)
         raise
@@ -469,8 +510,7 @@ def oracle(case):
             msgs.append(f"node {comps(n)}: carried values {have} != {want}")
     # the inputs are untouched (names, structure, listed attrs)
     for tree, spec in ((a, d["t1"]), (b, d["t2"])):
-        if {comps(n): {k: v for k, v in n.describe(exclude_attributes=["name"], exclude_prefix="_")} for n in preorder(tree)} != \
-                {p: dict(v) for p, v in spec_paths(spec).items()}:
+        if {comps(n): attrs_of(n) for n in preorder(tree)} != {p: dict(v) for p, v in spec_paths(spec).items()}:
             msgs.append("an input tree was altered")
     return msgs
 
